@@ -461,4 +461,46 @@ pub fn check(ctx: &Ctx, rep: &mut Report) {
             check_template(ctx, rep, n, d, &t, &labels, &mut rng);
         }
     }
+    // inject_parameters over (sql, values) pairs produced by build() of generated statements
+    let base = 1u64 << 44;
+    let ninj = ctx.size(30_000, 2_000_000) / ctx.nshards;
+    for r in 0..ninj {
+        let n = base + r;
+        if !ctx.wants(n) {
+            continue;
+        }
+        let d = Dialect::ALL[(r % 3) as usize];
+        let mut rng = ctx.rng("inject", r);
+        let spec = {
+            let mut g = crate::gen::Gen::new(&mut rng, crate::gen::Cfg::text(d));
+            g.statement()
+        };
+        rep.eval();
+        crate::apply::set_route_seed(ctx.seed ^ n);
+        let res = guard(|| {
+            let b = crate::apply::stmt(&spec);
+            let inline = b.inline(qb(d));
+            let (p, v) = b.build(qb(d));
+            let inj = inject_parameters(&p, v.0.clone(), qb(d));
+            (inline, p, v, inj)
+        });
+        match res {
+            Ok((inline, p, v, inj)) => {
+                rep.count("inject_statements_checked", 1);
+                if inj != inline {
+                    rep.violation(
+                        "R.inject",
+                        d.name(),
+                        format!("statement {}", spec.kind()),
+                        json!({"sql": p, "values": format!("{:?}", v.0), "expected": inline, "got": inj}),
+                        ctx.shard,
+                        n,
+                    );
+                } else if v.0.len() >= 2 {
+                    rep.nontrivial(hash_str(&p) ^ (d as u64) << 60);
+                }
+            }
+            Err(pm) => rep.violation("R.panic", d.name(), format!("inject {}", panic_sig(&pm)), json!({"panic": pm}), ctx.shard, n),
+        }
+    }
 }
